@@ -82,6 +82,28 @@ Proof.
         unfold is_zero; rewrite ?ia_eqb_refl, ?Zs, ?Zd; reflexivity.
 Qed.
 
+(** the semantic law of the request list (with an inspector) *)
+Lemma split_chain sp insp dst reqs :
+  sp_insp sp = Some insp -> isd (sp_local sp) <> 0 -> isd dst <> 0 ->
+  split sp dst = SplitOk reqs ->
+  reqs <> [] /\ chain_from (sp_local sp) 0 reqs dst
+  /\ has_type Up reqs = negb (sp_core sp)
+  /\ has_type Down reqs = negb (wildcard dst || mem_ia dst (i_cores insp))
+  /\ (length reqs <= 3)%nat.
+Proof.
+  intros Hi Hs Hd E. rewrite split_eq_spec in E by assumption.
+  unfold split_spec in E. rewrite Hi in E.
+  destruct (needs_lookup (sp_local sp) dst && i_fail insp); [discriminate|].
+  unfold classify in E. cbv zeta in E.
+  destruct (sp_core sp), (wildcard dst), (mem_ia dst (i_cores insp)),
+    (isd (sp_local sp) =? isd dst);
+    try destruct (single_core (i_cores insp) (isd (sp_local sp))) as [c|];
+    try destruct (ia_eqb c (sp_local sp)); try destruct (ia_eqb c dst);
+    try destruct (ia_eqb zero (sp_local sp)); try destruct (ia_eqb zero dst);
+    cbn in E; inversion E; subst reqs; cbn;
+    repeat split; try reflexivity; try discriminate; try (repeat constructor).
+Qed.
+
 (** the ISD a requested segment starts in *)
 Lemma split_req_shape sp dst reqs r :
   isd dst <> 0 -> split sp dst = SplitOk reqs -> In r reqs ->
@@ -182,6 +204,16 @@ Definition comb_ok (src : ia) : Prop :=
   forall d up core down p, In p (combine src d up core down) ->
     exists i0 rest, p_ifs p = i0 :: rest /\ fst i0 = src /\ fst (last (p_ifs p) i0) = d.
 
+(** the same, required only for segment sets satisfying [P] *)
+Definition comb_ok_on (P : list seg -> list seg -> list seg -> Prop) (src : ia) : Prop :=
+  forall d up core down p, P up core down -> In p (combine src d up core down) ->
+    exists i0 rest, p_ifs p = i0 :: rest /\ fst i0 = src /\ fst (last (p_ifs p) i0) = d.
+
+(** [P] holds of what the fetcher returns *)
+Definition fetched_sat (P : list seg -> list seg -> list seg -> Prop) : Prop :=
+  forall reqs, P (of_type Up (fst (fetch reqs))) (of_type Core (fst (fetch reqs)))
+                 (of_type Down (fst (fetch reqs))).
+
 (** the Fetcher contract: only segments that answer one of the requests *)
 Definition fetch_ok : Prop :=
   forall reqs s, In s (fst (fetch reqs)) -> exists r, In r reqs /\ seg_matches r s = true.
@@ -262,8 +294,8 @@ Proof.
   repeat split. eauto.
 Qed.
 
-Theorem endpoints sp now dst l r :
-  comb_ok (sp_local sp) -> fetch_ok -> wildcard (sp_local sp) = false ->
+Theorem endpoints_on P sp now dst l r :
+  comb_ok_on P (sp_local sp) -> fetched_sat P -> fetch_ok -> wildcard (sp_local sp) = false ->
   get_paths fetch combine rev_active nexthop sp now dst = GOk l -> In r l ->
   r_src r = sp_local sp
   /\ (wildcard dst = false -> r_dst r = dst)
@@ -272,13 +304,13 @@ Theorem endpoints sp now dst l r :
       exists s, In s (fst (fetch (requests sp dst))) /\ sg_first s = r_dst r /\
                 (sg_type s = Core \/ (sg_type s = Up /\ isd dst = isd (sp_local sp)))).
 Proof.
-  intros Hc Hf Hl E Hr. apply get_paths_ok in E as [[El [Ez ->]]|[El [Ez [reqs [Es Hall]]]]].
+  intros Hc HP Hf Hl E Hr. apply get_paths_ok in E as [[El [Ez ->]]|[El [Ez [reqs [Es Hall]]]]].
   - destruct Hr as [<-|[]]. cbn. apply ia_eqb_eq in El. subst dst.
     split; [reflexivity|]. split; [reflexivity | congruence].
   - destruct (Hall _ Hr) as [p [Hp Ht]].
     apply In_filtered in Hp as [[d [Hd Hcmb]] _].
     destruct (translate_ok_fields _ _ Ht) as [_ [_ [i0 [rest [Ei [Esrc Edst]]]]]].
-    destruct (Hc _ _ _ _ _ Hcmb) as [j0 [rest' [Ej [Hj1 Hj2]]]].
+    destruct (Hc _ _ _ _ _ (HP reqs) Hcmb) as [j0 [rest' [Ej [Hj1 Hj2]]]].
     rewrite Ei in Ej. inversion Ej; subst j0 rest'. rewrite Esrc, Edst, Hj1, Hj2.
     assert (Ereq : requests sp dst = reqs).
     { unfold requests. destruct (N.eqb_spec (isd dst) 0); [contradiction|].
@@ -302,6 +334,21 @@ Proof.
         assert (Tu : rq_type rq = Up) by congruence. rewrite Tu in M2. cbn in M2.
         apply andb_true_iff in M2 as [M2 _]. apply ia_match_isd in M2.
         split; [rewrite <- E1, <- M2, Su by assumption; auto | eauto 8].
+Qed.
+
+Theorem endpoints sp now dst l r :
+  comb_ok (sp_local sp) -> fetch_ok -> wildcard (sp_local sp) = false ->
+  get_paths fetch combine rev_active nexthop sp now dst = GOk l -> In r l ->
+  r_src r = sp_local sp
+  /\ (wildcard dst = false -> r_dst r = dst)
+  /\ (wildcard dst = true ->
+      isd (r_dst r) = isd dst /\
+      exists s, In s (fst (fetch (requests sp dst))) /\ sg_first s = r_dst r /\
+                (sg_type s = Core \/ (sg_type s = Up /\ isd dst = isd (sp_local sp)))).
+Proof.
+  intros Hc. apply (endpoints_on (fun _ _ _ => True)).
+  - intros d up core down p _. apply Hc.
+  - intros reqs. exact I.
 Qed.
 
 Theorem live sp now dst l r :
@@ -347,6 +394,26 @@ Proof.
   destruct (translate_paths nexthop (p0 :: pt)) as [[|r0 rt]|]; congruence.
 Qed.
 
+(** wildcard destinations: with a predicate for core ASes and the fact that up
+    segments start at, and core segments connect, core ASes, the path ends at a
+    core AS of the requested ISD *)
+Variable is_core : ia -> bool.
+Definition segs_core_ok : Prop :=
+  forall reqs s, In s (fst (fetch reqs)) -> sg_type s = Core \/ sg_type s = Up ->
+    is_core (sg_first s) = true.
+
+Theorem wildcard_core P sp now dst l r :
+  comb_ok_on P (sp_local sp) -> fetched_sat P -> fetch_ok -> segs_core_ok ->
+  wildcard (sp_local sp) = false ->
+  get_paths fetch combine rev_active nexthop sp now dst = GOk l -> In r l ->
+  wildcard dst = true -> isd (r_dst r) = isd dst /\ is_core (r_dst r) = true.
+Proof.
+  intros Hc HP Hf Hk Hl E Hr W.
+  destruct (endpoints_on P sp now dst l r Hc HP Hf Hl E Hr) as [_ [_ H]].
+  destruct (H W) as [Hi [s [Hs [Hfst Ht]]]]. split; [exact Hi|].
+  rewrite <- Hfst. apply (Hk _ _ Hs). destruct Ht as [Ht|[Ht _]]; auto.
+Qed.
+
 End WithEnv.
 
 (** ---------------------------------------------------------------- the oracle on the model *)
@@ -387,12 +454,17 @@ Proof.
   now rewrite split_eq_spec.
 Qed.
 
+(** up and core segments of the pool start at core ASes of the case's topology *)
+Definition pool_core_ok (e : env) : Prop :=
+  forall s, In s (e_pool e) -> sg_type s = Core \/ sg_type s = Up ->
+    mem_ia (sg_first s) (e_cores e) = true.
+
 Lemma oracle_model e :
   isd (sp_local (e_sp e)) <> 0 -> wildcard (sp_local (e_sp e)) = false ->
-  comb_wf (sp_local (e_sp e)) (e_comb e) ->
+  comb_wf (sp_local (e_sp e)) (e_comb e) -> pool_core_ok e ->
   oracle e (requests (e_sp e) (e_dst e)) (res_ok (model_paths e)) (res_paths (model_paths e)) = true.
 Proof.
-  intros Hl Hw Hc. unfold oracle. apply andb_true_iff. split; [apply andb_true_iff; split|].
+  intros Hl Hw Hc Hk. unfold oracle. apply andb_true_iff. split; [apply andb_true_iff; split|].
   - rewrite requests_spec by assumption. apply set_eqb_refl, req_eqb_refl.
   - unfold model_paths.
     set (fe := pool_fetch (e_pool e) (e_fetch_fail e)).
@@ -404,11 +476,15 @@ Proof.
                   (comb_wf_ok _ _ Hc) (pool_fetch_ok _ _) Hw G Hr) as [Hsrc [Hd1 Hd2]].
     pose proof (live fe cb rv nh _ _ _ _ _ G Hr) as Hlive.
     unfold opath_of, path_ok.
-    apply andb_true_iff; split; [apply andb_true_iff; split; [apply andb_true_iff; split|]|].
+    apply andb_true_iff; split; [apply andb_true_iff; split|];
+      [apply orb_true_iff; right; apply andb_true_iff; split| |].
     + apply ia_eqb_eq. exact Hsrc.
     + unfold dst_ok. destruct (wildcard (e_dst e)) eqn:W; cbn [negb].
       * destruct (Hd2 eq_refl) as [Hi [s [Hs [Hf Ht]]]]. apply andb_true_iff. split.
-        -- now apply N.eqb_eq.
+        -- apply andb_true_iff. split; [now apply N.eqb_eq|]. rewrite <- Hf. apply Hk.
+           ++ unfold fe, pool_fetch in Hs. destruct (e_fetch_fail e); [destruct Hs|].
+              now apply filter_In in Hs as [Hs _].
+           ++ destruct Ht as [Ht|[Ht _]]; auto.
         -- apply mem_ia_In. fold fe. apply in_app_iff. destruct Ht as [Ht|[Ht Hi']].
            ++ left. unfold firsts. apply in_map_iff. exists s. split; [assumption|].
               now apply In_of_type.
